@@ -25,7 +25,8 @@
                        it is enqueued (no Abort EClosed), CloseFail (failAsyncRequestsOnClose) hits async entries; QueueFail only happens
                        inside XSubmit (the async sender's ONE re-check of batchConn.closed right after enqueueing, fix 000f10e)
                        and inside XSendExit (the drain)
-     XIdleExit         batchSendLoop returns because the idle timer fired (builder empty, conn not closed): nothing is drained *)
+     XIdleExit         batchSendLoop returns because the idle timer fired (builder empty, conn not closed): the conn is marked
+                       idle for good and -- fix e17a7fd -- the channel is drained, failing the async entries ("rpcClient is idle") *)
 From Coq Require Import List Arith Bool.
 Import ListNotations.
 From Verif Require Import BatchRPC.Model.
@@ -37,7 +38,8 @@ Record sys := mkSys {
   pri : caller -> nat;        (* batchCommandsEntry.pri *)
   asy : caller -> bool;       (* entry.cb != nil *)
   sendloop : bool;            (* batchSendLoop is running *)
-  ready : bool                (* ... and past fetchAllPendingRequests: it goes on to getClientAndSend *)
+  ready : bool;               (* ... and past fetchAllPendingRequests: it goes on to getClientAndSend *)
+  idle : bool                 (* batchConn.idle: set when the send loop returns on its idle timer, never reset *)
 }.
 
 Inductive xlabel :=
@@ -94,11 +96,11 @@ Definition core_allowed (x : sys) (l : label) : bool :=
   | Store _ | FailSent _ | Restart => sendloop x
   | Abort c k => match k with EClosed => negb (asy x c) | _ => true end
   | CloseFail c => asy x c
-  | QueueFail _ => false
+  | QueueFail _ | IdleFail _ => false
   | _ => true
   end.
 
-Definition with_core (x : sys) (st : state) : sys := mkSys st (chq x) (inb x) (pri x) (asy x) (sendloop x) (ready x).
+Definition with_core (x : sys) (st : state) : sys := mkSys st (chq x) (inb x) (pri x) (asy x) (sendloop x) (ready x) (idle x).
 Definition remove_c (c : caller) (l : list caller) : list caller := filter (fun c' => negb (Nat.eqb c' c)) l.
 (* the async entries failQueuedAsyncRequestsOnClose finds in the channel *)
 Definition drained (x : sys) : list caller :=
@@ -112,48 +114,54 @@ Definition xstep (x : sys) (l : xlabel) : option sys :=
   | XSubmit c h p a =>
       match step (core x) (Submit c h) with
       | Some st =>
-          (* the async sender re-checks batchConn.closed once, right after it has enqueued the entry *)
-          let st' := if a && closed st then match step st (QueueFail c) with Some s2 => s2 | None => st end else st in
-          Some (mkSys st' (c :: chq x) (inb x) (updn (pri x) c p) (updb (asy x) c a) (sendloop x) (ready x))
+          (* the async sender re-checks batchConn.closed and isIdle once, right after it has enqueued the entry *)
+          let st' := if a && closed st then match step st (QueueFail c) with Some s2 => s2 | None => st end
+                     else if a && idle x then match step st (IdleFail c) with Some s2 => s2 | None => st end
+                     else st in
+          Some (mkSys st' (c :: chq x) (inb x) (updn (pri x) c p) (updb (asy x) c a) (sendloop x) (ready x) (idle x))
       | None => None
       end
   | XFetch c =>
       if sendloop x && memb c (chq x) && negb (memb c (inb x)) && is_queued (e_st (ent (core x) c))
-      then Some (mkSys (core x) (remove_c c (chq x)) (c :: inb x) (pri x) (asy x) (sendloop x) true) else None
+      then Some (mkSys (core x) (remove_c c (chq x)) (c :: inb x) (pri x) (asy x) (sendloop x) true (idle x)) else None
   | XBuildRound lim takes =>
       if round_guard x lim takes then
         match run (core x) (build_labels (ent (core x)) (next_id (core x)) takes) with
-        | Some st => Some (mkSys st (chq x) (filter (fun c => negb (memb c takes)) (inb x)) (pri x) (asy x) (sendloop x) false)
+        | Some st => Some (mkSys st (chq x) (filter (fun c => negb (memb c takes)) (inb x)) (pri x) (asy x) (sendloop x) false (idle x))
         | None => None
         end
       else None
   | XClean =>
       if sendloop x then
         match run (core x) (map DropCanceled (filter (fun c => e_canceled (ent (core x) c)) (inb x))) with
-        | Some st => Some (mkSys st (chq x) (filter (fun c => negb (e_canceled (ent (core x) c))) (inb x)) (pri x) (asy x) (sendloop x) (ready x))
+        | Some st => Some (mkSys st (chq x) (filter (fun c => negb (e_canceled (ent (core x) c))) (inb x)) (pri x) (asy x) (sendloop x) (ready x) (idle x))
         | None => None
         end
       else None
   | XNoConn =>
       if sendloop x then
         match run (core x) (map NoConn (inb x)) with
-        | Some st => Some (mkSys st (chq x) [] (pri x) (asy x) (sendloop x) (ready x))
+        | Some st => Some (mkSys st (chq x) [] (pri x) (asy x) (sendloop x) (ready x) (idle x))
         | None => None
         end
       else None
   | XSendExit =>
       if sendloop x && closed (core x) && match inb x with [] => true | _ => false end
       then match run (core x) (map QueueFail (drained x)) with
-           | Some st => Some (mkSys st [] (inb x) (pri x) (asy x) false false)
+           | Some st => Some (mkSys st [] (inb x) (pri x) (asy x) false false (idle x))
            | None => None
            end
       else None
   | XIdleExit =>
       if sendloop x && negb (closed (core x)) && match inb x with [] => true | _ => false end
-      then Some (mkSys (core x) (chq x) (inb x) (pri x) (asy x) false false) else None
+      then match run (core x) (map IdleFail (drained x)) with
+           | Some st => Some (mkSys st [] (inb x) (pri x) (asy x) false false true)
+           | None => None
+           end
+      else None
   | XWake =>
       if sendloop x && match inb x with [] => false | _ => true end
-      then Some (mkSys (core x) (chq x) (inb x) (pri x) (asy x) (sendloop x) true) else None
+      then Some (mkSys (core x) (chq x) (inb x) (pri x) (asy x) (sendloop x) true (idle x)) else None
   | XCore l0 =>
       if core_allowed x l0 then
         match step (core x) l0 with Some st => Some (with_core x st) | None => None end
@@ -166,7 +174,7 @@ Fixpoint xrun (x : sys) (ls : list xlabel) : option sys :=
   | l :: r => match xstep x l with Some x' => xrun x' r | None => None end
   end.
 
-Definition xinit : sys := mkSys init [] [] (fun _ => 0) (fun _ => false) true false.
+Definition xinit : sys := mkSys init [] [] (fun _ => 0) (fun _ => false) true false false.
 Definition xreach (x : sys) : Prop := exists ls, xrun xinit ls = Some x.
 
 (* ---- the non-batch path: sendRequest -> tikvrpc.CallRPC (one unary gRPC call per request, context with the
